@@ -16,6 +16,7 @@ LEAN_MODULES = ["B2Z.Props.C08"]
 THEOREMS = [
     "B2Z.C08_writer", "B2Z.C08_store_wf", "B2Z.C08_values", "B2Z.C08_num_records", "B2Z.C08_iter_values",
     "B2Z.C08_iterValues", "B2Z.C08_summary_bounds", "B2Z.C08_summary_attained", "B2Z.C08_summary_partition_independent",
+    "B2Z.C08_merge_laws", "B2Z.C08_summary_order_independent", "B2Z.C08_iter_values_concat",
 ]
 ASSUMPTIONS = [
     "np.searchsorted(side='right') on a cumulative-sum array = count of entries <= v (validated by correspondence)",
